@@ -107,7 +107,7 @@ func C08(c *core.Ctx) {
 	}
 	rng := core.NewRng(c.Seed)
 	nTrees := c.N(120, 4000)
-	o := gen.Opts{MaxDepth: 3, MaxKids: 4, Defaults: true, MultiKeys: true, Hostile: true}
+	o := gen.Opts{MaxDepth: 3, MaxKids: 4, Defaults: true, MultiKeys: true, Hostile: true, NonConfig: true}
 	var lines []string
 	type pend struct{ desc, goPath string }
 	var pends []pend
@@ -149,7 +149,8 @@ func C08(c *core.Ctx) {
 				break
 			}
 			want := c08expectLeaves(n.kids, n.body)
-			variants := map[string]string{"plain": n.path, "trailing-slash": n.path + "/", "query": n.path + "?depth=1"}
+			variants := map[string]string{"plain": n.path, "trailing-slash": n.path + "/", "query": n.path + "?depth=1",
+				"query-content-config": n.path + "?content=config", "query-content-nonconfig": n.path + "?content=nonconfig"}
 			// module-qualified first segment
 			variants["qualified"] = "m:" + n.path
 			for vname, p := range variants {
@@ -171,6 +172,9 @@ func C08(c *core.Ctx) {
 					}
 					c.Violation(core.Replay{Kind: "property-failure", Class: "find-nil-" + vname + "-" + tgtKind, Summary: desc + ": existing node not found", Input: input(n, vname)})
 					continue
+				}
+				if strings.HasPrefix(vname, "query-content") {
+					continue // the filter legitimately applies to what is read *below* the target; reaching it is the point
 				}
 				if got := c08leaves(sel, n.kids); got != want {
 					c.Violation(core.Replay{Kind: "property-failure", Class: "find-content-" + vname + "-" + tgtKind, Summary: fmt.Sprintf("%s: selected node holds %s, the addressed node holds %s", desc, got, want), Input: input(n, vname)})
